@@ -387,3 +387,9 @@ for _p, _salt in (("C01", 4101), ("C03", 4103), ("C18", 4118)):
     CHECKS[_p]["trusted"] = CHECKS[_p].get("trusted", []) + [
         "Model/Tree.v transcribes bytetree.go by hand (tied by stage tree); a node's data is the one SUM field the harness gives the tree; "
         "Tree.bytes (the memory estimate) and the mutex around removedFor are not modelled"]
+
+CHECKS["C18"]["stages"] = CHECKS["C18"]["stages"] + [dict(sub="arrsnap", quick=12, thorough=600, shards=8, shard_min=64, shrink=["points"], seed_salt=1818)]
+CHECKS["C18"]["rule"] += (" Stage arrsnap (Model/CorrSnap.v): one point whose first 2-3 values are arrays of 400-2000 numbers (the row store applies it as "
+                          "that many memstore updates) is inserted into an existing or a new key while memstore-inclusive SELECT * queries are issued back to back; "
+                          "every result must be the table before the point or the table after it (the implementation's own quiescent answers), never a part "
+                          "of the point. non-trivial: at least one query ran before the point was complete.")
